@@ -40,6 +40,7 @@ type weaver struct {
 	stats map[string]int
 	tmp   int
 	used  bool
+	usedEtcd bool
 }
 
 func (w *weaver) site(kind string) *ast.BasicLit {
@@ -142,6 +143,10 @@ func (w *weaver) rewriteCall(call *ast.CallExpr) ast.Expr {
 			w.used = true
 			w.stats["seam"]++
 			return simcall("DialerDialContext", append([]ast.Expr{w.addr(sel.X)}, call.Args...)...)
+		case "go.etcd.io/etcd/client/v3.New":
+			w.usedEtcd = true
+			w.stats["seam"]++
+			return &ast.CallExpr{Fun: &ast.SelectorExpr{X: ast.NewIdent("simetcd"), Sel: ast.NewIdent("New")}, Args: call.Args}
 		}
 	}
 	return nil
@@ -454,10 +459,16 @@ func main() {
 			if strings.HasSuffix(path, "_test.go") || !strings.HasSuffix(path, ".go") {
 				continue
 			}
-			if !w.weaveFile(f) {
+			w.usedEtcd = false
+			if !w.weaveFile(f) && !w.usedEtcd {
 				continue
 			}
-			astutil.AddNamedImport(p.Fset, f, "simrt", "verif/sim/simrt")
+			if w.used {
+				astutil.AddNamedImport(p.Fset, f, "simrt", "verif/sim/simrt")
+			}
+			if w.usedEtcd {
+				astutil.AddNamedImport(p.Fset, f, "simetcd", "verif/sim/simetcd")
+			}
 			var buf bytes.Buffer
 			if err := format.Node(&buf, p.Fset, f); err != nil {
 				fmt.Fprintln(os.Stderr, "format:", path, err)
